@@ -225,11 +225,15 @@ def setText {α : Type} (C : Cls α) (B : Str) (s : St α) (w : Where) (text : S
     | .error => ({ s with var := x1 }, .invalid)
     | .unm => ({ s with var := x1 }, .unm)
 
-/-- `<node>.setValue(v)` with an already normalised `v` -/
-def setVal {α : Type} (C : Cls α) (B : Str) (s : St α) (w : Where) (v : α) : St α × Out α :=
+/-- `<node>.setValue(v)`; `r` is what the class's `setValue` makes of `v` (normalised value or rejection) -/
+def setVal {α : Type} (C : Cls α) (B : Str) (s : St α) (w : Where) (r : SetRes α) : St α × Out α :=
   match s.var.reach C B s.cache w with
   | (x1, none) => ({ s with var := x1 }, .invalid)
-  | (x1, some _) => ({ s with var := x1.assign w v false }, .done)
+  | (x1, some _) =>
+    match r with
+    | .ok v => ({ s with var := x1.assign w v false }, .done)
+    | .error => ({ s with var := x1 }, .invalid)
+    | .unm => ({ s with var := x1 }, .unm)
 
 /-- `Config reset channel <network> <channel>` (`network = none` is the literal `*`) -/
 def resetChannel {α : Type} (C : Cls α) (B : Str) (s : St α) (network : Option Str) (c : Str) :
@@ -319,8 +323,12 @@ def eagerStep {α : Type} (C : Cls α) (K : Kind) (B : Str) (cache : Cache) (x :
     | some parts =>
       match parts with
       | [p] =>
-        if p ≠ [] ∧ isChannel p then
+        if K.chanV ∧ p ≠ [] ∧ isChannel p then
           (match x.getChan C B cache p with
+           | (x1, some _) => .cont x1
+           | (_, none) => .raised)
+        else if p.head? = some ':' then
+          (match x.getNet C B cache (p.drop 1) with
            | (x1, some _) => .cont x1
            | (_, none) => .raised)
         else .cont x
